@@ -15,6 +15,15 @@
        Memo = "name"   key = the function's own name      - not parameters and body (a redefinition, another state)
    TLC refutes both on every run (Faithful violated).  memo survives NewState (process wide) and Save/Load.
 
+   Save + load is itself observed: every name must be bound, in the interpreter that loaded the saved text, to what it was
+   bound to when the text was written.  A named function held under another name is written  k = func g(..){..} ; the
+   third deviation is about LOADING that line:
+       AliasLine = "binds"     it binds k (the design the property demands: save + load is the identity on env)
+       AliasLine = "defines"   it binds g as well - what evaluating a named function literal does wherever it stands.
+                               Then a session in which g is bound to something else by now (func g ; k = g ; g = ..)
+                               comes back with g bound to the function k holds whenever k's line is loaded after g's
+                               (sorted order), and TLC finds exactly that history (three definitions are needed).
+
    Operations: DefNamed (func n(sig) {body}), DefLam (n = (sig) => body), Alias (n = t), Inspect (Function.Inspect of the value
    of n), Save (SaveGlobals: one line per bound name, in sorted order; the session then goes on in a NEW interpreter
    that loaded the saved text - with a faithful printer that is the same env), NewState (another interpreter in the
@@ -31,11 +40,12 @@ CONSTANTS NNames,    \* the first NNames of AllNames are used
           MaxObs,    \* observations (Inspect / Save) per history
           MaxNew,    \* NewState operations per history
           Memo,      \* "none" | "text" | "name", see above
+          AliasLine, \* "binds" | "defines", see above
           EmitOn
 
 VARIABLES env,    \* name -> function value, or NoFn
           memo,   \* set of <<key, function value>>: what the deviating printer remembers (process wide)
-          obs,    \* set of <<name, function value printed, function value bound>>
+          obs,    \* set of <<name, function value printed (or bound after a load), function value bound>>
           hist
 vars == <<env, memo, obs, hist>>
 
@@ -80,7 +90,9 @@ LoadLines(lines, e) ==
   ELSE LET n == Head(lines)[1]
            pf == Head(lines)[2]
            target == IF env[n].name = n /\ pf.name \in NameSet THEN pf.name ELSE n
-       IN LoadLines(Tail(lines), [e EXCEPT ![target] = pf])
+           e1 == [e EXCEPT ![target] = pf]
+           e2 == IF AliasLine = "defines" /\ target = n /\ pf.name \in NameSet \ {n} THEN [e1 EXCEPT ![pf.name] = pf] ELSE e1
+       IN LoadLines(Tail(lines), e2)
 
 \* ------------------------------------------------------------------ operations
 CanDef == NumDefs < MaxDefs
@@ -115,10 +127,12 @@ Inspect(n) ==
 
 Save ==
   /\ NumObs < MaxObs /\ Bound(env) # {}
-  /\ LET sv == SaveFrom(1, memo) IN
+  /\ LET sv == SaveFrom(1, memo)
+         loaded == LoadLines(sv[1], [n \in NameSet |-> NoFn]) IN
        /\ memo' = sv[2]
        /\ obs' = obs \cup {<<sv[1][k][1], sv[1][k][2], env[sv[1][k][1]]>> : k \in 1..Len(sv[1])}
-       /\ env' = LoadLines(sv[1], [n \in NameSet |-> NoFn])
+                     \cup {<<n, loaded[n], env[n]>> : n \in NameSet}
+       /\ env' = loaded
        /\ hist' = Append(hist, Op("save", "", 0, 0, "", [k \in 1..Len(sv[1]) |-> Exp(sv[1][k][1], env[sv[1][k][1]])]))
 
 \* another interpreter of the same process: only before a definition, with something left behind
@@ -144,6 +158,7 @@ Next ==
      \/ NewState
      \/ Finish
 
-\* the property: what is written for the function bound to a name is that function
+\* the property: what is written for the function bound to a name is that function, and what a name is bound to after
+\* save + load is what it was bound to
 Faithful == \A o \in obs : o[2] = o[3]
 =============================================================================
